@@ -80,6 +80,16 @@ inline Plan Gen(uint64_t seed)
    return p;
 }
 
+// The pool's private count of spare objects (_curPoolSize, "tracks the current number of available objects") is part of the bookkeeping the property names; it is
+// read without touching /repo through the one standard loophole: access checks do not apply to the arguments of an explicit template instantiation.
+template<class Tag, typename Tag::type M> struct PrivAccess {friend typename Tag::type PrivGet(Tag) {return M;}};
+struct CurPoolSizeTag160 {typedef uint32 ObjectPool<Obj, 160>::*type; friend type PrivGet(CurPoolSizeTag160);};
+struct CurPoolSizeTag320 {typedef uint32 ObjectPool<Obj, 320>::*type; friend type PrivGet(CurPoolSizeTag320);};
+template struct PrivAccess<CurPoolSizeTag160, &ObjectPool<Obj, 160>::_curPoolSize>;
+template struct PrivAccess<CurPoolSizeTag320, &ObjectPool<Obj, 320>::_curPoolSize>;
+inline uint32 SpareCountOf(const ObjectPool<Obj, 160> & p) {return p.*PrivGet(CurPoolSizeTag160());}
+inline uint32 SpareCountOf(const ObjectPool<Obj, 320> & p) {return p.*PrivGet(CurPoolSizeTag320());}
+
 template<int SLAB> struct Runner
 {
    static void Run(const Cfg & cfg, const std::map<int, std::vector<std::string> > & progs, RunResult & res)
@@ -197,8 +207,12 @@ template<int SLAB> struct Runner
          // every obtained object has been returned exactly once; every heap object deleted exactly once
          if (g_cnt.recycled != g_cnt.obtained) thr::ReportAndExit((g_cnt.recycled < g_cnt.obtained) ? "pooled_object_leaked" : "pooled_object_released_twice", U((uint64_t) g_cnt.obtained) + " objects obtained from the pool, " + U((uint64_t) g_cnt.recycled) + " returned to it, after every reference was dropped");
          if (g_cnt.heapDeleted != g_cnt.heapAllocated) thr::ReportAndExit("heap_object_leaked", U((uint64_t) g_cnt.heapAllocated) + " heap objects allocated, " + U((uint64_t) g_cnt.heapDeleted) + " deleted, after every reference was dropped");
-         // pool bookkeeping: with nothing handed out, a drain gives every slab back; a slot that is still marked in use has no owner
+         // pool bookkeeping: with nothing handed out, every allocated slot is a spare one, and the pool's own count of spare objects must say so
+         if (SpareCountOf(pool)  != pool.GetNumAllocatedItemSlots())  thr::ReportAndExit("pool_spare_count_inconsistent", "every reference was dropped: the pool has " + U(pool.GetNumAllocatedItemSlots()) + " item slots allocated, none handed out, but counts " + U(SpareCountOf(pool)) + " spare objects");
+         if (SpareCountOf(pool2) != pool2.GetNumAllocatedItemSlots()) thr::ReportAndExit("pool_spare_count_inconsistent", "every reference was dropped: the second pool has " + U(pool2.GetNumAllocatedItemSlots()) + " item slots allocated, none handed out, but counts " + U(SpareCountOf(pool2)) + " spare objects");
+         // ... a drain gives every slab back; a slot that is still marked in use has no owner
          pool.Drain(); pool2.Drain();
+         if ((SpareCountOf(pool) != 0)||(SpareCountOf(pool2) != 0)) thr::ReportAndExit("pool_spare_count_inconsistent", "after a drain with nothing handed out the pools count " + U(SpareCountOf(pool)) + " and " + U(SpareCountOf(pool2)) + " spare objects");
          if (pool2.GetNumAllocatedItemSlots() != 0) thr::ReportAndExit("pool_slot_leaked", "every reference was dropped and the second pool drained, yet " + U(pool2.GetNumAllocatedItemSlots()) + " item slots remain allocated");
          if (pool.GetNumAllocatedItemSlots() != 0) thr::ReportAndExit("pool_slot_leaked", "every reference was dropped and the pool drained, yet " + U(pool.GetNumAllocatedItemSlots()) + " item slots remain allocated: some slab is still marked in use although nobody holds an object of it");
          res.stats.inc("objects_obtained", (uint64_t) g_cnt.obtained); res.stats.inc("heap_objects", (uint64_t) g_cnt.heapAllocated); res.stats.inc("objects_constructed", (uint64_t) g_cnt.ctor);
